@@ -897,7 +897,7 @@ TARGETS = [
            needs=needs_of(gt_combos)),
     Target("eb", mk_curve_strategy(eb_combos), run_curve, _cfgs(["trace256"], ["trace256"]), quick=500, thorough=3000,
            needs=needs_of(eb_combos)),
-    Target("ed", mk_curve_strategy(ed_combos), run_curve, _cfgs([], ["trace255"]), quick=1, thorough=6000,
+    Target("ed", mk_curve_strategy(ed_combos), run_curve, _cfgs(["trace255"], ["trace255"]), quick=600, thorough=6000,
            needs=needs_of(ed_combos)),
     Target("exp", strat_exp, run_exp, _cfgs(["trace256"], ALL), quick=2000, thorough=10000),
     Target("rec_reg", strat_rec, run_rec, _cfgs(["trace256"], ["trace256"]), quick=4000, thorough=20000),
